@@ -41,7 +41,7 @@ def registered():
     out = subprocess.run(["/verif/sim/target/release/check", "--list"], capture_output=True, text=True)
     return out.stdout.split()
 
-reg = registered()
+reg = sorted(registered())
 checks = []
 for cid in reg:
     level, ref, tech = CHECKS[cid]
